@@ -126,6 +126,8 @@ dtz_enrichz(struct dt_dt_s d, zif_t zone)
 		}
 #endif
 		if (zdiff > 0) {
+			/* the sign may be left over from the zone we came from */
+			d.neg = 0U;
 			d.zdiff = (uint16_t)(zdiff / ZDIFF_RES);
 		} else if (zdiff < 0) {
 			d.neg = 1;
